@@ -639,4 +639,117 @@ theorem reverse_height_least (a f maxrad X Y Z : ℝ) (ha : 0 < a) (hf : f < 1)
         nlinarith [sq_nonneg rv.cphi]
     exact forward_on_ellipsoid (⟨a, f⟩ : Ell ℝ) rv.sphi rv.cphi rv.slam rv.clam hm.unit hl ha.ne' (by linarith) hpos
 
+/-! ## LocalCartesian: `Reset`, the matrix-returning overloads, `Rotate`/`Unrotate` -/
+
+/-- `Reset`: the frame of the local system is `Geocentric::Rotation` at the origin `(lat0, lon0)`, a rotation matrix;
+the origin of the local system is the forward image of `(lat0, lon0, h0)` -/
+theorem reset_frame (a f s c sl cl h0 : ℝ) (hu : s ^ 2 + c ^ 2 = 1) (hl : sl ^ 2 + cl ^ 2 = 1) :
+    let O := reset (⟨a, f⟩ : Ell ℝ) s c sl cl h0
+    O.r = rotation s c sl cl ∧ IsRot O.r ∧ (O.x0, O.y0, O.z0) = forward (⟨a, f⟩ : Ell ℝ) s c sl cl h0 := by
+  intro O
+  exact ⟨rfl, rotation_isRot s c sl cl hu hl, rfl⟩
+
+/-- `MatrixMultiply(M)` replaces `M` by `rᵀ·M` -/
+theorem matrixMultiply_spec (r M : List ℝ) : toMat (matrixMultiply r M) = (toMat r).transpose * toMat M :=
+  toMat_matrixMultiply r M
+
+/-- the composition of two rotations is a rotation: the matrix returned by `LocalCartesian::Forward/Reverse` is orthogonal
+with determinant `+1` whenever the frame of the origin and the frame of the point are -/
+theorem matrixMultiply_rotation (r M : List ℝ) (hr : IsRot r) (hM : IsRot M) : IsRot (matrixMultiply r M) :=
+  matrixMultiply_isRot r M hr hM
+
+/-- at the origin of the local system `Forward` returns `(0, 0, 0)` and the identity matrix -/
+theorem localForwardM_at_origin (a f s c sl cl h0 : ℝ) (hu : s ^ 2 + c ^ 2 = 1) (hl : sl ^ 2 + cl ^ 2 = 1) :
+    let E : Ell ℝ := ⟨a, f⟩
+    let o := localForwardM E (reset E s c sl cl h0) s c sl cl h0
+    o.1 = (0, 0, 0) ∧ toMat o.2 = 1 := by
+  intro E o
+  constructor
+  · show localForward (reset E s c sl cl h0) _ _ _ = _
+    exact local_origin (reset E s c sl cl h0)
+  · exact matrixMultiply_self _ (rotation_isRot s c sl cl hu hl)
+
+/-- the matrix returned by `LocalCartesian::Forward` is a rotation -/
+theorem localForwardM_frame_isRot (E : Ell ℝ) (O : Origin ℝ) (s c sl cl h : ℝ) (hO : IsRot O.r)
+    (hu : s ^ 2 + c ^ 2 = 1) (hl : sl ^ 2 + cl ^ 2 = 1) : IsRot (localForwardM E O s c sl cl h).2 :=
+  matrixMultiply_isRot _ _ hO (rotation_isRot s c sl cl hu hl)
+
+/-- the matrix returned by `LocalCartesian::Reverse` is a rotation, for every local point (every branch of the geocentric
+reverse) -/
+theorem localReverseM_frame_isRot (a f maxrad : ℝ) (O : Origin ℝ) (x y z : ℝ) (ha : 0 < a) (hf : f < 1) (hmr : 0 ≤ maxrad)
+    (hO : IsRot O.r) : IsRot (localReverseM (⟨a, f⟩ : Ell ℝ) maxrad O x y z).M :=
+  matrixMultiply_isRot _ _ hO (reverseM_frame_isRot a f maxrad _ _ _ ha hf hmr)
+
+/-- `LocalCartesian` reverse followed by forward (around the geocentric conversions) is the identity -/
+theorem local_forward_reverse (O : Origin ℝ) (x y z : ℝ) (hO : IsRot O.r) :
+    let P := localReverse O x y z
+    localForward O P.1 P.2.1 P.2.2 = (x, y, z) := by
+  have c00 := hO.col 0 0; have c01 := hO.col 0 1; have c02 := hO.col 0 2
+  have c11 := hO.col 1 1; have c12 := hO.col 1 2; have c22 := hO.col 2 2
+  have c10 := hO.col 1 0; have c20 := hO.col 2 0; have c21 := hO.col 2 1
+  simp at c00 c01 c02 c11 c12 c22 c10 c20 c21
+  simp only [localForward, localReverse, Prod.mk.injEq]
+  refine ⟨?_, ?_, ?_⟩
+  · linear_combination x * c00 + y * c01 + z * c02
+  · linear_combination x * c10 + y * c11 + z * c12
+  · linear_combination x * c20 + y * c21 + z * c22
+
+/-- `IntForward`'s inlined rotation is `Unrotate` of the offset from the origin, `IntReverse`'s is `Rotate` -/
+theorem localForward_eq_unrotate (O : Origin ℝ) (xc yc zc : ℝ) :
+    localForward O xc yc zc = unrotate O.r (xc - O.x0) (yc - O.y0) (zc - O.z0) := rfl
+
+theorem localReverse_eq_rotate (O : Origin ℝ) (x y z : ℝ) :
+    localReverse O x y z = (O.x0 + (rotate O.r x y z).1, O.y0 + (rotate O.r x y z).2.1, O.z0 + (rotate O.r x y z).2.2) := by
+  simp only [localReverse, rotate, Prod.mk.injEq]
+  refine ⟨?_, ?_, ?_⟩ <;> ring
+
+/-- `Unrotate` undoes `Rotate` and conversely, for a rotation matrix -/
+theorem unrotate_rotate (M : List ℝ) (x y z : ℝ) (hM : IsRot M) :
+    let v := rotate M x y z
+    unrotate M v.1 v.2.1 v.2.2 = (x, y, z) := by
+  have h := local_forward_reverse ⟨0, 0, 0, M⟩ x y z hM
+  simp only [localForward, localReverse, zero_add, sub_zero] at h
+  simpa only [rotate, unrotate] using h
+
+theorem rotate_unrotate (M : List ℝ) (X Y Z : ℝ) (hM : IsRot M) :
+    let v := unrotate M X Y Z
+    rotate M v.1 v.2.1 v.2.2 = (X, Y, Z) := by
+  have r00 := hM.row 0 0; have r01 := hM.row 0 1; have r02 := hM.row 0 2
+  have r11 := hM.row 1 1; have r12 := hM.row 1 2; have r22 := hM.row 2 2
+  have r10 := hM.row 1 0; have r20 := hM.row 2 0; have r21 := hM.row 2 1
+  simp at r00 r01 r02 r11 r12 r22 r10 r20 r21
+  simp only [rotate, unrotate, Prod.mk.injEq]
+  refine ⟨?_, ?_, ?_⟩
+  · linear_combination X * r00 + Y * r01 + Z * r02
+  · linear_combination X * r10 + Y * r11 + Z * r12
+  · linear_combination X * r20 + Y * r21 + Z * r22
+
+/--
+**`LocalCartesian::Forward` inverts `LocalCartesian::Reverse`, matrices included**: for a local system whose frame is a
+rotation (e.g. any `reset`), and a local point whose geocentric image is below the far-field threshold, `Forward` at the
+`(lat, lon, h)` returned by `Reverse` gives back `(x, y, z)` and the same matrix.
+-/
+theorem localForwardM_reverseM (a f maxrad : ℝ) (O : Origin ℝ) (x y z : ℝ) (ha : 0 < a) (hf : f < 1) (hmr : 0 ≤ maxrad)
+    (hO : IsRot O.r)
+    (hmax : ¬ maxrad < Real.sqrt ((localReverse O x y z).1 ^ 2 + (localReverse O x y z).2.1 ^ 2 + (localReverse O x y z).2.2 ^ 2)) :
+    let E : Ell ℝ := ⟨a, f⟩
+    let o := localReverseM E maxrad O x y z
+    localForwardM E O (sind o.lat) (cosd o.lat) (sind o.lon) (cosd o.lon) o.h = ((x, y, z), o.M) := by
+  intro E o
+  set P := localReverse O x y z with hP
+  have h1 := forwardM_reverseM a f maxrad P.1 P.2.1 P.2.2 ha hf hmr hmax
+  simp only [forwardM, Prod.mk.injEq] at h1
+  obtain ⟨hpos, hM⟩ := h1
+  have hlr := local_forward_reverse O x y z hO
+  simp only [] at hlr
+  show (localForward O (forward E _ _ _ _ _).1 (forward E _ _ _ _ _).2.1 (forward E _ _ _ _ _).2.2,
+        matrixMultiply O.r (rotation _ _ _ _)) = _
+  have hpos' : forward E (sind o.lat) (cosd o.lat) (sind o.lon) (cosd o.lon) o.h = (P.1, P.2.1, P.2.2) := hpos
+  have hM' : rotation (sind o.lat) (cosd o.lat) (sind o.lon) (cosd o.lon) = (reverseM E maxrad P.1 P.2.1 P.2.2).M := hM
+  rw [hpos', hM']
+  exact Prod.ext hlr rfl
+
+/-- non-vacuity: the frame of a `reset` at the north pole of the unit sphere satisfies the hypotheses (`IsRot`) -/
+example : IsRot (reset (⟨1, 0⟩ : Ell ℝ) 1 0 0 1 0).r := (reset_frame 1 0 1 0 0 1 0 (by norm_num) (by norm_num)).2.1
+
 end GeoVerif.Props.C07
